@@ -582,9 +582,10 @@ async fn c16_case(seq: &[u32], sub_at: usize, read_mask: u32) -> CaseOut {
                     consumed.insert(idx);
                     fold(&mut state, &d);
                     seen_deltas.push(delta_json(&d));
-                    // a node that disappeared must be reported with the address it had
+                    // a node that disappeared - from the membership, or from the address it had (same id on a new
+                    // address) - must be reported with the address it HAD
                     for (id, a) in &published[idx].1 {
-                        if !snap.contains_key(id) {
+                        {
                             match d.left.iter().find(|m| m.node_id == *id) {
                                 Some(m) if m.public_addr == *a => {},
                                 Some(m) => out.violate(
